@@ -488,7 +488,9 @@ Fixpoint detect (fuel : nat) (ns : nodes) (vis : list nid) (n : nid) : dres :=
     end
   end.
 
-(* flattenAdjacentSplitterNodes *)
+(* flattenAdjacentSplitterNodes.  c.nodes[split.NextNode] of a missing node would be a nil dereference in
+   Go; the model keeps such an edge — unreachable: the table handed to this pass is closed
+   (Assemble.assemble_spec), and the pass keeps it closed (Passes.Pres_closed) *)
 Definition inline1 (ns : nodes) (e : sedge) : list sedge * bool :=
   match assoc nid_eqb (snd e) ns with
   | Some (SplitterN inner) => (map (fun e2 => (wmul (fst e) (fst e2), snd e2)) inner, true)
